@@ -338,13 +338,44 @@ func isEmptyContainer(e *elem) bool {
 
 // ---------------------------------------------------------------- decorations
 
-// vectors enumerates decoration vectors for b boundaries: all 7^b when
-// b <= fullB, otherwise all vectors with at most maxDec decorated boundaries.
+// vectors enumerates decoration vectors for b boundaries. For b <= fullB: all
+// nd^b vectors, nd = the whole 9-element alphabet when b <= 4, the 7-element
+// base alphabet above that (then followed by every vector with <= 2 decorated
+// boundaries that uses an extended element). For b > fullB: every vector over
+// the whole alphabet with at most maxDec decorated boundaries, fewest first.
 // It calls f(vec, ndecorated); vec is reused.
 func vectors(b, fullB, maxDec int, f func(vec []uint8, ndec int) bool) {
 	vec := make([]uint8, b)
-	nd := len(jsonref.Decorations)
+	all := len(jsonref.Decorations)
+	stop := false
+	var needExt bool
+	var rec func(from, left, used int, ext bool)
+	rec = func(from, left, used int, ext bool) {
+		if stop {
+			return
+		}
+		if left == 0 {
+			if needExt && !ext {
+				return
+			}
+			if !f(vec, used) {
+				stop = true
+			}
+			return
+		}
+		for p := from; p < b && !stop; p++ {
+			for d := 1; d < all && !stop; d++ {
+				vec[p] = uint8(d)
+				rec(p+1, left-1, used, ext || d >= jsonref.BaseDecorations)
+			}
+			vec[p] = 0
+		}
+	}
 	if b <= fullB {
+		nd := jsonref.BaseDecorations
+		if b <= 4 {
+			nd = all
+		}
 		for {
 			n := 0
 			for _, v := range vec {
@@ -364,32 +395,17 @@ func vectors(b, fullB, maxDec int, f func(vec []uint8, ndec int) bool) {
 				vec[i] = 0
 			}
 			if i < 0 {
-				return
+				break
 			}
 		}
-	}
-	stop := false
-	var rec func(from, left, used int)
-	rec = func(from, left, used int) {
-		if stop {
+		if nd == all {
 			return
 		}
-		if left == 0 {
-			if !f(vec, used) {
-				stop = true
-			}
-			return
-		}
-		for p := from; p < b && !stop; p++ {
-			for d := 1; d < nd && !stop; d++ {
-				vec[p] = uint8(d)
-				rec(p+1, left-1, used)
-			}
-			vec[p] = 0
-		}
+		needExt = true
+		maxDec = 2
 	}
 	for k := 0; k <= maxDec && k <= b && !stop; k++ {
-		rec(0, k, k)
+		rec(0, k, k, false)
 	}
 }
 
@@ -581,8 +597,25 @@ type famCfg struct {
 }
 
 func (f famCfg) String() string {
-	return fmt.Sprintf("all 7^b vectors for b<=%d else <=%d decorated; finals: all=%v or <=%d decorated; 1-byte/data+EOF reads: <=%d decorated; every 2-split: <=%d decorated (with finals: %v)",
-		f.fullB, f.maxDec, f.finalAll, f.finalMaxDec, f.extraMaxDec, f.splitMaxDec, f.splitFinals)
+	lim := func(n int) string {
+		switch {
+		case n >= 99:
+			return "every vector"
+		case n < 0:
+			return "none"
+		}
+		return fmt.Sprintf("vectors with <=%d decorated boundaries", n)
+	}
+	vec := fmt.Sprintf("every vector with <=%d decorated boundaries", f.maxDec)
+	if f.fullB > 0 {
+		vec = fmt.Sprintf("all vectors when boundaries<=%d, else ", f.fullB) + vec
+	}
+	fin := lim(f.finalMaxDec)
+	if f.finalAll {
+		fin = "every vector"
+	}
+	return fmt.Sprintf("decorations: %s; final-comment variants: %s; 1-byte and data+EOF reads: %s; every 2-split: %s (final variants included: %v)",
+		vec, fin, lim(f.extraMaxDec), lim(f.splitMaxDec), f.splitFinals)
 }
 
 var sampleTick int64
@@ -637,7 +670,7 @@ func runDoc(c *hl.Ctx, d doc, tc famCfg) {
 				pass++
 			}
 			sampleTick++
-			if hc && (sampleTick == 50 || sampleTick%300000 == 0) {
+			if hc && (sampleTick == int64(37+7919*c.Shard) || sampleTick%300000 == 0) {
 				c.Sample(map[string]interface{}{"family": d.fam, "document": string(plain), "decorated": string(buf)})
 			}
 		}
@@ -778,7 +811,7 @@ func evalBig(c *hl.Ctx, bc bigCase, m rmode) {
 var countOnly = os.Getenv("C17_COUNT") != ""
 
 func run(c *hl.Ctx) {
-	c.Rule("E3 bounded-exhaustive. Documents (deduplicated by text): family S = every string of <=3 elements of the hostile alphabet as top-level value, array element, object key, object member value (+ the same strings spelled with the alternative \\uXXXX and \\/ escapes); family P = every ordered pair of strings of <=2 elements as [s,t] and {s:t}; family T = every value tree of depth<=2 over the atom/filler/key alphabets (bounds in info.families). Each document x decoration vector over the 7-element decoration alphabet at every token boundary (all 7^b vectors up to the family's full bound, otherwise every vector with at most max decorated boundaries) x final unterminated line comment {none, //c, //} x reads {whole, data+EOF in one call, 1-byte, every 2-split}. Family size = documents of 65535..262145 bytes made of one long string / number run / space run / block comment / line comment / many short strings x {plain, line comment before the last token, final //c} x read modes. distinct_nontrivial = number of distinct decorated texts containing at least one comment that went through the oracle (documents are deduplicated by their text before sharding; distinct decoration vectors of one token list give distinct texts by construction; read modes are not counted).")
+	c.Rule("E3 bounded-exhaustive. Documents (deduplicated by text): family S = every string of <=3 elements of the hostile alphabet as top-level value, array element, object key, object member value (+ the same strings spelled with the alternative \\uXXXX and \\/ escapes); family P = every ordered pair of strings of <=2 elements as [s,t] and {s:t}; family T = every value tree of depth<=2 over the atom/filler/key alphabets (bounds in info.families). Each document x decoration vector over the decoration alphabet (7 base + 2 extended elements) at every token boundary (all 9^b vectors for b<=4, all 7^b base vectors plus every <=2-decorated vector using an extended element for 4<b<=full bound, otherwise every vector over the 9 elements with at most max decorated boundaries) x final unterminated line comment {none, //c, //} x reads {whole, data+EOF in one call, 1-byte, every 2-split}. Family size = documents of 65535..262145 bytes made of one long string / number run / space run / block comment / line comment / many short strings x {plain, line comment before the last token, final //c} x read modes. distinct_nontrivial = number of distinct decorated texts containing at least one comment that went through the oracle (documents are deduplicated by their text before sharding; distinct decoration vectors of one token list give distinct texts by construction; read modes are not counted).")
 	c.Assume("encoding/json is the reference decoder for the undecorated text", "the reference tokenizer (RFC 8259 lexical grammar) agrees with the generator on every generated document (self-checked on every document)",
 		"comments are only placed between tokens; only // and /* */ comments are used; documents are valid JSON")
 	c.Info("string_alphabet", strAlphabet)
@@ -866,9 +899,12 @@ func run(c *hl.Ctx) {
 		le2 := famCfg{fullB: 0, maxDec: 2, finalMaxDec: 1, extraMaxDec: 99, splitMaxDec: 1}
 		le1 := famCfg{fullB: 0, maxDec: 1, finalMaxDec: 1, extraMaxDec: 99, splitMaxDec: -1}
 		tree := famCfg{fullB: 4, maxDec: 1, finalMaxDec: 1, extraMaxDec: 99, splitMaxDec: 1}
+		for _, s := range s2 {
+			emit("S/element", element(s), full4)
+		}
 		for _, s := range s3 {
 			emit("S/value", value(s), full2)
-			emit("S/element", element(s), full4)
+			emit("S/element", element(s), le2)
 			emit("S/key", keyDoc(s), le2)
 			emit("S/member", member(s), le2)
 			if jsonref.QuoteAlt(s) != jsonref.Quote(s) {
